@@ -440,8 +440,11 @@ class SupvisorsStateModes:
         Finally, a third priority is given to the 'lowest' nick_identifier.
         """
         # priority is given to existing Master instances if already identified
-        all_candidates = self.get_master_identifiers()
-        all_candidates.discard('')
+        # NOTE: a Master declared remotely is only eligible if it is seen as RUNNING by the local Supvisors instance
+        #       (it may have been lost or isolated locally whereas a remote Supvisors instance still declares it)
+        running_identifiers = self.local_state_modes.running_identifiers()
+        all_candidates = {identifier for identifier in self.get_master_identifiers()
+                          if identifier in running_identifiers}
         if not all_candidates:
             # no Master identified, so get the running instances
             all_candidates = self.local_state_modes.running_identifiers()
